@@ -122,7 +122,11 @@ func genC18(r *rand.Rand, n int, tier string) []string {
 		k := 1 + r.Intn(8)
 		ops := make([]string, k)
 		for j := range ops {
-			switch r.Intn(4) {
+			switch r.Intn(5) {
+			case 4:
+				// an enumeration of the whole table with an update made between its first and its second
+				// solution: the answers are the table AT CALL TIME (ISO 8.14.4.1)
+				ops[j] = "cm" + strings.TrimPrefix(genC18Op(r), "op")
 			case 0:
 				ops[j] = genC18Cur(r)
 			case 1:
@@ -165,6 +169,35 @@ func runC18(payload string) string {
 				errOps++
 			}
 			res = append(res, r)
+		case "cm":
+			ts, err := d.terms(f[1])
+			must(err)
+			sols, err := i.Query("current_op(P, T, N).")
+			must(err)
+			var rows []string
+			first := true
+			opRes := "notrun"
+			for sols.Next() {
+				var row struct {
+					P int
+					T string
+					N string
+				}
+				must(sols.Scan(&row))
+				rows = append(rows, wireRaw(compound("t", engine.Integer(row.P), atom(row.T), atom(row.N))))
+				if first {
+					first = false
+					opRes = solveOnce(&i.VM, compound("op", ts...))
+					if opRes == "true" {
+						okOps++
+					} else {
+						errOps++
+					}
+				}
+			}
+			_ = sols.Close()
+			sort.Strings(rows)
+			res = append(res, "ans ["+strings.Join(rows, ", ")+"] / "+opRes)
 		case "cur":
 			ts, err := d.terms(f[1])
 			must(err)
